@@ -63,14 +63,25 @@ def gen_hist(rng, tier):
                 if "width" in custom:
                     gridblock += "  width " + " ".join(num(x) for x in w) + "\n"
                 gridblock += " }\n"
-        lines = ["m.new %d" % nd, cfg(conf),
+        setup = ["m.new %d" % nd, cfg(conf),
                  cfg("histogram {\n name h\n colvars %s\n%s%s}\n" % (" ".join("x%d" % i for i in range(nd)), " stepZeroData on\n" if step0 else "", gridblock)),
                  ] + ["M.cv x%d %d %s %s %s 0" % (i, i, fbits(cvw[i]), fbits(per[i]), fbits(wc[i])) for i in range(nd)] + [
                  "M.hist h %d %d %s %s %s %s" % (1 if step0 else 0, nd, " ".join("x%d" % i for i in range(nd)),
                      " ".join(map(fbits, lo)), " ".join(map(fbits, hi)), " ".join(map(fbits, w)))]
+        lines = list(setup)
         nsteps = rng.randint(3, 25)
+        # a third of the runs without stepZeroData are stopped once, saved, and resumed by a fresh instance from the state: the first step
+        # of the resumed job repeats the stop step (its sample came in with the state) and must not be counted again
+        restart_at = rng.randint(1, nsteps - 1) if (k % 3 == 1 and not step0) else -1
         hist = []
         for s_ in range(nsteps):
+            if s_ == restart_at:
+                import os as _os, cvbuild as _cb
+                pfx = _os.path.join(_cb.CACHE, "c15-scratch"); _os.makedirs(pfx, exist_ok=True); pfx = _os.path.join(pfx, "h%d" % k)
+                lines += ["m.save %s" % pfx] + setup + ["m.load %s" % pfx]
+                for i in range(nd):
+                    lines.append(pos(i, 0.0, 0.0, hist[-1][0][i]))
+                lines.append("m.step"); hist.append((list(hist[-1][0]), True))
             xs = []
             for i in range(nd):
                 r = rng.rand()
